@@ -119,7 +119,7 @@ class Tally:
         self.terminated_checked = 0
         self.samples = []
 
-    def run(self, kind, texts, model=True):
+    def run(self, kind, texts, model=True, shards=None):
         """model=False: only the reference reader is compared with yang.Parse (texts on which the extracted model is too slow)"""
         res = self.res
         texts = list(texts)
@@ -129,8 +129,8 @@ class Tally:
         pc = ["parse " + h for h in hs]
         sc = ["specparse " + h for h in hs]
         go = lib.run_go(pc)
-        ml = lib.run_ml(pc) if model else go
-        sp = lib.run_ml(sc)
+        ml = lib.run_ml(pc, shards=shards) if model else go
+        sp = lib.run_ml(sc, shards=shards)
         # the theorems speak about the text forced to end in a line break (what yang.Parse lexes): the reference
         # reader must not care
         unterminated = [i for i, t in enumerate(texts) if t and not t.endswith("\n")]
@@ -263,10 +263,9 @@ def run(res, tier, seed, proof):
     # deep nesting: depths around powers of two and round numbers, with and without arguments / strings / siblings at every level,
     # balanced and unbalanced.  The extracted model needs about 1 s at depth 1000 and 45 s at 5000 (it recomputes lengths per
     # token), so beyond 1024 (2048 thorough) only the reference reader is compared with yang.Parse.
-    T.run("deep-nesting", c16.deep_texts(c16.DEPTHS))
-    if not quick:
-        T.run("deep-nesting", c16.deep_texts([2048], ["a{", "a x{"]))
-    T.run("deep-nesting:reader-only", c16.deep_texts(c16.DEEP_DEPTHS), model=False)
+    T.run("deep-nesting", c16.deep_texts(c16.DEPTHS[:8]), shards=lib.NCPU)
+    T.run("deep-nesting", c16.deep_texts(c16.DEPTHS[8:] + ([] if quick else [2048]), ["a{", "a x{", "a\n{\n"]), shards=lib.NCPU)
+    T.run("deep-nesting:reader-only", c16.deep_texts(c16.DEPTHS[8:] + c16.DEEP_DEPTHS), model=False, shards=lib.NCPU)
     T.run_chunked("multiline-grid", multiline_grid(24))
     T.run_chunked("grammar-directed", grammar_cases(rnd, 3000 if quick else 60000))
     T.run_chunked("malformed", malformed_cases(rnd, 300 if quick else 6000))
